@@ -15,12 +15,18 @@ LEVEL_TEXT = ("Theorems in Coq (Props/C18.v) for every byte string: the models o
               "ParsePKCS8EcryptedPrivateKey and ParseSm2PrivateKey, ReadPublicKeyFromHex/ReadPrivateKeyFromHex, sessionState.unmarshal, "
               "decryptTicket (MAC/CTR abstract), certificateRequestMsgGM.unmarshal and the three GM key-exchange parsers never index or "
               "slice out of range and always terminate; so does a model of the DER reader of encoding/asn1 (parseTagAndLength, parseField ... "
-              "for structs of big.Int, []byte, BitString, OID, RawValue with optional/explicit/tag parameters) for every schema, with at most "
-              "2*|schema| tag-and-length reads, instantiated end to end for SignDataToSignDigit and CipherUnmarshal. The extracted models are run on the same mutated inputs as /repo and every "
+              "parseSequenceOf for big.Int, []byte, BitString, OID, RawValue, int, bool, time.Time, the empty interface, slices and structs of "
+              "these with optional/explicit/tag/set/default parameters) for every schema, with at most 2*|schema| + W(schema)*|input| "
+              "tag-and-length reads (W = 0 without slices), instantiated for the 75 Go types gmsm hands to asn1.Unmarshal, whose schemas the "
+              "translator reads from the struct declarations and asn1 tags (C18_gmsm_asn1_decoders_total), and end to end for "
+              "SignDataToSignDigit and CipherUnmarshal. The extracted models are run on the same mutated inputs as /repo and every "
               "projected result (value or error class) compared.")
 LEVEL_NOTE = ("PROVED for all byte strings: only the hand-written byte-level decoders listed above, as modelled (models written by hand, "
               "tied by the differential run). The encoding/asn1 reader model is compared with the real package value for value (decoded fields and rest bytes) on about 10k mutants of "
-              "signatures, SM2 ciphertexts, the outer certificate split and two structures with optional / explicit / implicit fields. NOT PROVED, checked by the corpus only (about 100k mutated inputs per quick run under "
+              "signatures, SM2 ciphertexts, the outer certificate split and two structures with optional / explicit / implicit fields, and by accept / reject and rest bytes "
+              "with asn1.Unmarshal into the REAL Go types of gmsm (hooks VerifAsn1Unmarshal) on about 23k cases per quick run (every element of every corpus object offered to every type, "
+              "mutants of what is accepted, crafted time strings, ANY strings, booleans, integers, slice element tags); time.Parse/Format and utf8.Valid enter that model as acceptance "
+              "predicates written from their source. That the gmsm code AROUND these Unmarshal calls (what it does with the decoded structs) cannot panic is still only checked by the corpus. NOT PROVED, checked by the corpus only (about 100k mutated inputs per quick run under "
               "recover(), 2 s / 64 MiB limits): everything that is a thin wrapper over encoding/asn1, encoding/pem, math/big, "
               "crypto/* - ParseCertificate(s), ParseCertificateRequest, ParseCRL/ParseDERCRL, ParsePKCS7 (+Verify/Decrypt/DecryptSM2), "
               "PKCS#8/PEM readers, ParseSm2PublicKey, pkcs12.Decode/DecodeAll/ToPEM, DecryptAsn1, SignDataToSignDigit, PublicKey.Verify, "
@@ -32,9 +38,9 @@ LEVEL_NOTE = ("PROVED for all byte strings: only the hand-written byte-level dec
 TRUSTED_BASE = [
     "models coq/Dec/BerModel.v, coq/Dec/ByteModels.v, coq/Dec/Asn1Model.v (encoding/asn1 of Go 1.23, from its source) written by hand from x509/ber.go, x509/pkcs7.go, x509/pkcs8.go, x509/utils.go, sm2/sm2.go, sm2/utils.go, gmtls/ticket.go, gmtls/gm_handshake_messages.go, gmtls/gm_key_agreement.go; tied by the correspondence run of this check",
     "checked-access layer coq/Dec/Access.v: slices modelled with cap = len",
-    "translator target 'dec' (maxBERDepth, sm2 P and N, ticketKeyNameLen) -> coq/Gen/DecConsts.v",
+    "translator target 'dec' (maxBERDepth, sm2 P and N, ticketKeyNameLen) -> coq/Gen/DecConsts.v; target 'asn1schemas' (struct declarations and asn1 tags of x509, pkcs12, sm2 and GOROOT crypto/x509/pkix -> coq/Gen/Asn1Schemas.v; its root table of Unmarshal destinations is a list in the target; x509.nameConstraints / generalSubtree (ia5 string fields) are excluded and only corpus-checked)",
     "extraction: ExtrOcamlBasic only; OCaml 4.13.1 + dune; runner ocaml/dec/main.ml and ocaml/conv.ml.tmpl",
-    "Go driver harness/cmd/c18 (mutation generator, DER walker, recover()/deadline wrapper hx.Guard, second timed run + runtime.MemStats for expensive calls); hook files x509/verif_decoders_verif.go, gmtls/verif_decoders_verif.go",
+    "Go driver harness/cmd/c18 (mutation generator, DER walker, recover()/deadline wrapper hx.Guard, second timed run + runtime.MemStats for expensive calls); hook files x509/verif_decoders_verif.go, gmtls/verif_decoders_verif.go, {x509,pkcs12,sm2}/verif_asn1schemas_verif.go",
     "encoding/asn1, encoding/pem, encoding/hex, math/big, crypto/* of Go 1.23: 'returns a value or an error' (exercised by the corpus, not verified)",
 ]
 ASSUMPTIONS = [
@@ -49,7 +55,7 @@ RULE = ("corpus = valid encodings made by the library itself (SM2 and RSA certif
         "tickets, GM key-exchange bodies); from each: every truncation, every byte replaced by {00,01,7f,80,ff,b^1,b^80}, every TLV length "
         "rewritten to {0,len-1,len+1,0x80,0x84ffffffff}, every TLV tag swapped among 11 universal tags (quick tier: TLV rewrites all, the "
         "rest sampled at a fixed stride per base; thorough: all), empty input, random strings; handshake messages additionally get structure-aware mutants (harness/cmd/c18/tlstree.go: the message is parsed into its tree of length-prefixed vectors; the content of each vector becomes empty / 1 / 2 bytes / one shorter / one longer, list elements and extensions move first / last / alone, are duplicated or dropped, extensions of every known and of unknown types are inserted with tiny bodies, every enclosing length recomputed); BER nesting 1..200 through the model and "
-        "1000/10000 (definite and indefinite), 20000 siblings, the repaired overlap family through the implementation. A case is "
+        "1000/10000 (definite and indefinite), 20000 siblings, the repaired overlap family through the implementation; op A1G: every element at any depth of every DER object of the corpus is offered to each of the 75 Go root types, accepted ones (largest first) are bases for the same mutations, plus crafted families (harness/cmd/c18/asn1schemas.go). A case is "
         "non-trivial when its input is non-empty; distinct = distinct case text")
 
 MODELLED = {"BER", "UNP", "PAD", "SDG", "CUM", "CMA", "DCP", "P8E", "SKP", "HPU", "HPR", "SSU", "CRQ", "KXC", "KXS", "KXE",
